@@ -215,6 +215,8 @@ def boxed_target(w, target, state):
         return (c.LABEL_LOCAL_REF, gid(w.never))
     if target == "forged":
         return (c.LABEL_LOCAL_REF, ("builtins.object", 12345, 67890))
+    if target in ("never_class", "forged_class"):
+        return (c.LABEL_LOCAL_REF, raw_id(w, target))
     if target == "value":
         return (c.LABEL_VALUE, 5)
     if target == "badlabel":
@@ -222,8 +224,20 @@ def boxed_target(w, target, state):
     return (c.LABEL_REMOTE_REF, ("builtins.list", 111, 222))
 
 
+class Unexported(object):
+    """A class of the serving process that no connection ever exports; creating an instance trips a canary."""
+    made = []
+
+    def __init__(self, *a, **k):
+        Unexported.made.append(1)
+
+
 def raw_id(w, target):
     gid = w.get_id_pack
+    if target == "never_class":
+        return gid(Unexported)
+    if target == "forged_class":
+        return (gid(Unexported)[0], 424242, 0)
     return {"root": gid(w.svc), "obj": gid(w.obj), "stale": gid(w.obj), "other": gid(w.other), "never": gid(w.never)}.get(
         target, ("builtins.object", 12345, 67890))
 
@@ -337,6 +351,9 @@ def oracles(w, t, resp):
             bad.append(("canary:" + k, "the canary %s ran %d time(s)" % (k, v)))
     if w.touched:
         bad.append(("touched", "denied attributes were read: %s" % w.touched[:4]))
+    if Unexported.made:
+        bad.append(("canary:unexported-class", "a class that was never exported was instantiated %d time(s)" % len(Unexported.made)))
+        del Unexported.made[:]
     new = set(sys.modules) - w.modules0
     new = {m for m in new if not m.startswith("encodings")}
     if new:
